@@ -490,6 +490,53 @@ class Program:
             self.bodies[b.name] = b
         self.consts = {c["path"]: c for c in self.items["consts"]}
 
+    # ---- helpers introduced by refactoring (not in the baseline vocabulary, private, single call site)
+    def auto_inline(self):
+        if hasattr(self, "_auto_inline"):
+            return self._auto_inline
+        import json
+        import os
+        path = os.path.join(os.path.dirname(os.path.abspath(__file__)), "baseline_functions.json")
+        with open(path) as f:
+            base = set(json.load(f)["functions"])
+        sites = {}
+        for b in self.bodies.values():
+            for bi, t, c in b.calls():
+                if c.target in self.bodies:
+                    sites.setdefault(c.target, []).append(b.name)
+        out = {}
+        for name, b in self.bodies.items():
+            if b.kind == "closure" or name in base:
+                continue
+            if "Public" in b.j.get("vis", ""):
+                continue
+            if b.j.get("impl_trait"):
+                continue
+            cs = sites.get(name, [])
+            if len(cs) == 1 and cs[0] != name:
+                out[name] = cs[0]
+        self._auto_inline = out
+        return out
+
+    def home(self, name):
+        """The function a body belongs to for who-may-call purposes: closures -> their root function; helpers
+        introduced by refactoring -> their single caller."""
+        seen = set()
+        while name not in seen:
+            seen.add(name)
+            b = self.bodies.get(name)
+            if b is None:
+                return name
+            if b.kind == "closure":
+                name = b.j.get("root", name)
+                continue
+            ai = self.auto_inline()
+            if name in ai:
+                name = ai[name]
+                continue
+            return name
+        return name
+
     def body(self, name, required=True):
         b = self.bodies.get(name)
         if b is None and required:
